@@ -228,6 +228,8 @@ def handle(c):
         return handle_balance_kwargs(c)
     if c['comp'] == 'self_product':
         return handle_self_product(c)
+    if c['comp'] == 'spline':
+        return handle_spline(c)
     env = [fr(v) for v in c['x']]
     comp, layout, onames, implicit = build(c)
     p = om.Problem()
@@ -293,6 +295,97 @@ def handle(c):
                     break
     res = {'outs': [q(v) for v in outs], 'ncols': ncols, 'jac': [q(v) for row in Jf for v in row]}
     return {'res': res, 'ok': ok, 'msg': msg, 'sig': kind, 'kind': kind}
+
+
+def handle_spline(c):
+    """SplineComp against the standalone interpolation (a fresh InterpND per spline) and difference quotients"""
+    from openmdao.components.interp_util.interp import InterpND
+    method, vs = c['method'], c['vs']
+    xi = np.array(c['x_interp'], dtype=float)
+    kw = dict(method=method, x_interp_val=xi, vec_size=vs)
+    opts = dict(c.get('interp_options') or {})
+    if opts:
+        kw['interp_options'] = dict(opts)
+    if c.get('x_cp') is not None:
+        grid = np.array(c['x_cp'], dtype=float)
+        kw['x_cp_val'] = grid
+    else:
+        kw['num_cp'] = c['num_cp']
+        grid = np.linspace(0, 1.0, c['num_cp'])
+    ncp = len(grid)
+    kind = 'spline:%s:n%d:vs%d%s' % (method, len(c['splines']), vs, ':num_cp' if c.get('x_cp') is None else '')
+    comp = om.SplineComp(**kw)
+    for k, sp in enumerate(c['splines']):
+        comp.add_spline(y_cp_name='ycp%d' % k, y_interp_name='y%d' % k,
+                        y_cp_val=np.array(sp['init'], dtype=float).reshape(vs, ncp), y_units=sp.get('units'))
+    p = om.Problem()
+    p.model.add_subsystem('c', comp, promotes=['*'])
+    p.setup()
+    p.final_setup()
+    vals = [np.array(sp['ycp'], dtype=float).reshape(vs, ncp) for sp in c['splines']]
+
+    def evaluate(values):
+        for k, v in enumerate(values):
+            comp._inputs['ycp%d' % k] = v
+        comp.run_solve_nonlinear()
+        return [np.array(comp._outputs['y%d' % k]).reshape(vs, len(xi)).copy() for k in range(len(values))]
+
+    ys = evaluate(vals)
+    comp.run_linearize()
+    subjacs = comp._get_jacobian()._get_subjacs(comp)
+    ok, msg = True, ''
+    nkink = 0
+    for k, v in enumerate(vals):
+        J = np.asarray(subjacs[('c.y%d' % k, 'c.ycp%d' % k)].todense()).real       # (vs*ni, vs*ncp)
+        # every other block must be absent / zero
+        for k2 in range(len(vals)):
+            if k2 != k:
+                sj = subjacs.get(('c.y%d' % k, 'c.ycp%d' % k2))
+                if sj is not None and np.any(np.asarray(sj.todense()) != 0):
+                    ok, msg = False, 'spline %d has a non-zero partial w.r.t. the control points of spline %d' % (k, k2)
+        # (1) the standalone interpolation
+        ref = InterpND(points=(grid,), values=v[0, :].copy(), method=method, x_interp=xi, extrapolate=True, **opts)
+        yref, dref = ref.evaluate_spline(v.copy(), compute_derivative=True)
+        yref = np.asarray(yref).reshape(vs, len(xi))
+        dref = np.asarray(dref).reshape(vs, len(xi), ncp)
+        if not np.allclose(ys[k], yref, rtol=1e-12, atol=1e-12):
+            ij = np.unravel_index(np.argmax(np.abs(ys[k] - yref)), yref.shape)
+            ok, msg = False, ('spline %d: output[%s] = %r, evaluate_spline of a standalone InterpND gives %r'
+                              % (k, ij, ys[k][ij], yref[ij]))
+        Jref = np.zeros_like(J)
+        for n in range(vs):
+            Jref[n * len(xi):(n + 1) * len(xi), n * ncp:(n + 1) * ncp] = dref[n]
+        if ok and not np.allclose(J, Jref, rtol=1e-10, atol=1e-12):
+            ij = np.unravel_index(np.argmax(np.abs(J - Jref)), J.shape)
+            ok, msg = False, ('spline %d (of %d on the component): partial[%d,%d] = %r, standalone InterpND spline '
+                              'gradient gives %r' % (k, len(vals), ij[0], ij[1], J[ij], Jref[ij]))
+        # (2) difference quotients of the component itself, away from kinks
+        h = 1e-6
+        for col in range(vs * ncp):
+            if not ok:
+                break
+            vp = [a.copy() for a in vals]
+            vm = [a.copy() for a in vals]
+            vp[k].ravel()[col] += h
+            vm[k].ravel()[col] -= h
+            fwd = (evaluate(vp)[k].ravel() - ys[k].ravel()) / h
+            bwd = (ys[k].ravel() - evaluate(vm)[k].ravel()) / h
+            for row in range(J.shape[0]):
+                scale = 1.0 + abs(J[row, col])
+                if abs(fwd[row] - bwd[row]) > 1e-4 * scale:
+                    nkink += 1          # one-sided derivatives differ: not differentiable here
+                    continue
+                cen = 0.5 * (fwd[row] + bwd[row])
+                if abs(cen - J[row, col]) > 1e-5 * scale:
+                    ok, msg = False, ('spline %d (of %d): partial[%d,%d] = %r, central difference quotient %r'
+                                      % (k, len(vals), row, col, J[row, col], cen))
+                    break
+        evaluate(vals)
+        if not ok:
+            break
+    if nkink:
+        kind += ':kinks'
+    return {'res': '__none__', 'ok': ok, 'msg': msg, 'sig': kind, 'kind': kind}
 
 
 def handle_self_product(c):
